@@ -50,7 +50,8 @@ static std::string parse_flat(std::string const &schema, std::string const &conf
     size_t c = item.find(':');
     std::string kind = item.substr(0, c), key = unhex(item.substr(c + 1));
     std::string out = "-";
-    colvarparse::Parse_Mode const m = colvarparse::parse_silent;
+    colvarparse::Parse_Mode m = colvarparse::parse_silent;
+    if (kind[kind.size() - 1] == '!') { m = colvarparse::parse_required; kind.erase(kind.size() - 1); }
     if (kind == "R") {
       double v = 0.0;
       if (p.get_keyval(conf, key.c_str(), v, 0.0, m)) out = vs_hex(v);
@@ -70,6 +71,30 @@ static std::string parse_flat(std::string const &schema, std::string const &conf
         out = "[";
         for (size_t i = 0; i < v.size(); i++) out += (i ? ";" : "") + vs_hex(v[i]);
         out += "]";
+      }
+    } else if (kind[0] == 'T') {
+      size_t n = atoi(kind.c_str() + 1);
+      std::vector<double> comp;
+      bool found = false;
+      if (n == 3) {
+        cvm::rvector v(0.0, 0.0, 0.0);
+        found = p.get_keyval(conf, key.c_str(), v, cvm::rvector(0.0, 0.0, 0.0), m);
+        comp = {v.x, v.y, v.z};
+      } else if (n == 4) {
+        cvm::quaternion q(1.0, 0.0, 0.0, 0.0);
+        found = p.get_keyval(conf, key.c_str(), q, cvm::quaternion(1.0, 0.0, 0.0, 0.0), m);
+        comp = {q.q0, q.q1, q.q2, q.q3};
+      } else {
+        colvarvalue v(colvarvalue::type_vector);
+        v.vector1d_value.resize(n);
+        colvarvalue def(v);
+        found = p.get_keyval(conf, key.c_str(), v, def, m);
+        for (size_t i = 0; i < v.vector1d_value.size(); i++) comp.push_back(v.vector1d_value[i]);
+      }
+      if (found) {
+        out = "(";
+        for (size_t i = 0; i < comp.size(); i++) out += (i ? ";" : "") + vs_hex(comp[i]);
+        out += ")";
       }
     } else if (kind == "K") {
       // as colvarmodule::parse_colvars / parse_biases_type do
